@@ -174,7 +174,9 @@ def analyse(text, nerr, toks):
         t.indent = sum(indents)       # current block indentation
         if kind in OPENERS:
             encl += 1
-        elif kind in CLOSERS:
+        elif kind in CLOSERS or kind in (KIND["StrInterpMid"], KIND["StrInterpRight"]):
+            # as the lexer counts: the `}` that closes a string interpolation decrements enclosure_level too
+            # (the `\{` that opens it does not increment it)
             encl = max(0, encl - 1)
         lay.toks.append(t)
         pos = end
@@ -196,7 +198,8 @@ def state_at(lay, p):
             break
     if idx >= 0:
         t = lay.toks[idx]
-        encl = t.encl + (1 if t.kind in OPENERS else 0) - (1 if t.kind in CLOSERS and t.encl > 0 else 0)
+        closes = t.kind in CLOSERS or t.kind in (KIND["StrInterpMid"], KIND["StrInterpRight"])
+        encl = t.encl + (1 if t.kind in OPENERS else 0) - (1 if closes and t.encl > 0 else 0)
         indent = lay.toks[idx + 1].indent if idx + 1 < len(lay.toks) else lay.final_indent
     return encl, indent, idx
 
@@ -271,12 +274,12 @@ def points(lay):
         binop_after = nxt is not None and nxt.cat == CAT["BinOp"]
         if not (binop_before or binop_after):
             continue
-        if t.kind == KIND["Symbol"]:
-            # the operand must be the whole identifier: not a callee / receiver / keyword argument / definition head
-            if nxt is not None and not (nxt.cat in (CAT["BinOp"], CAT["REnclosure"], CAT["Separator"], CAT["EOF"]) or nxt.kind == KIND["Comma"]):
-                continue
-            if t.content in ("do", "do!", "then", "else", "self", "Self"):
-                continue
+        # the operand must be the whole token: not a callee / receiver / keyword argument / definition head, and not a
+        # number with a unit (`1.0kg` is 1.0 * kg)
+        if nxt is not None and not (nxt.cat in (CAT["BinOp"], CAT["REnclosure"], CAT["Separator"], CAT["EOF"]) or nxt.kind == KIND["Comma"]):
+            continue
+        if t.kind == KIND["Symbol"] and t.content in ("do", "do!", "then", "else", "self", "Self"):
+            continue
         if prev is not None and prev.kind in (KIND["Dot"], KIND["DblColon"], KIND["AtSign"], KIND["Colon"]):
             continue
         after_operand = prev is not None and (prev.cat in (CAT["Symbol"], CAT["Literal"], CAT["REnclosure"], CAT["StrInterpRight"], CAT["PostfixOp"]))
